@@ -170,7 +170,13 @@ impl Global {
 
         atomic::fence(Ordering::SeqCst);
 
+        #[cfg(circ_verif)]
+        crate::verif::pre(crate::verif::site::E_PUSH_EPOCH);
         let epoch = self.epoch.load(Ordering::Relaxed);
+        #[cfg(circ_verif)]
+        crate::verif::ev(crate::verif::site::EV_SEAL, guard.local as usize, epoch.value() as u64, bag.0.len() as u64);
+        #[cfg(circ_verif)]
+        crate::verif::pre(crate::verif::site::E_PUSH_ENQ);
         self.queue.push(bag.seal(epoch), guard);
     }
 
@@ -195,12 +201,16 @@ impl Global {
         );
 
         for _ in 0..Self::COLLECTS_TRIALS {
+            #[cfg(circ_verif)]
+            crate::verif::pre(crate::verif::site::E_COLLECT_POP);
             match self.queue.try_pop_if(
                 |sealed_bag: &SealedBag| sealed_bag.is_expired(self.epoch.load(Ordering::Relaxed)),
                 guard,
             ) {
                 None => break,
                 Some(sealed_bag) => {
+                    #[cfg(circ_verif)]
+                    crate::verif::ev(crate::verif::site::EV_POP_BAG, guard.local as usize, sealed_bag.epoch.value() as u64, self.epoch.load(Ordering::Relaxed).value() as u64);
                     drop(sealed_bag);
                 }
             }
@@ -217,6 +227,12 @@ impl Global {
     /// `try_advance()` is annotated `#[cold]` because it is rarely called.
     #[cold]
     pub(crate) fn try_advance(&self, guard: &Guard) -> Epoch {
+        #[cfg(circ_verif)]
+        if crate::verif::advance_blocked() {
+            return self.epoch.load(Ordering::Relaxed);
+        }
+        #[cfg(circ_verif)]
+        crate::verif::pre(crate::verif::site::E_ADV_READ);
         let global_epoch = self.epoch.load(Ordering::Relaxed);
         atomic::fence(Ordering::SeqCst);
 
@@ -232,6 +248,8 @@ impl Global {
                     return global_epoch;
                 }
                 Ok(local) => {
+                    #[cfg(circ_verif)]
+                    crate::verif::pre(crate::verif::site::E_ADV_SCAN);
                     let local_epoch = local.epoch.load(Ordering::Relaxed);
 
                     // If the participant was pinned in a different epoch, we cannot advance the
@@ -252,7 +270,11 @@ impl Global {
         // called from a thread that was pinned in `global_epoch`, and the global epoch cannot be
         // advanced two steps ahead of it.
         let new_epoch = global_epoch.successor();
+        #[cfg(circ_verif)]
+        crate::verif::pre(crate::verif::site::E_ADV_STORE);
         self.epoch.store(new_epoch, Ordering::Release);
+        #[cfg(circ_verif)]
+        crate::verif::ev(crate::verif::site::EV_ADVANCE, guard.local as usize, new_epoch.value() as u64, 0);
         new_epoch
     }
 }
@@ -353,6 +375,10 @@ impl Local {
             deferred = d;
             self.schedule_collection();
         }
+        #[cfg(circ_verif)]
+        if crate::verif::seal_on_defer() {
+            self.push_to_global(guard);
+        }
         self.incr_advance(guard);
     }
 
@@ -395,12 +421,16 @@ impl Local {
 
         if guard_count == 0 {
             let new_epoch = loop {
+                #[cfg(circ_verif)]
+                crate::verif::pre(crate::verif::site::E_PIN_READ);
                 let global_epoch = self.global().epoch.load(Ordering::Relaxed);
                 let new_epoch = global_epoch.pinned();
 
                 // Now we must store `new_epoch` into `self.epoch` and execute a `SeqCst` fence.
                 // The fence makes sure that any future loads from `Atomic`s will not happen before
                 // this store.
+                #[cfg(circ_verif)]
+                crate::verif::pre(crate::verif::site::E_PIN_PUBLISH);
                 if cfg!(all(
                     any(target_arch = "x86", target_arch = "x86_64"),
                     not(miri)
@@ -435,12 +465,18 @@ impl Local {
                     atomic::fence(Ordering::SeqCst);
                 }
 
+                #[cfg(circ_verif)]
+                crate::verif::pre(crate::verif::site::E_PIN_VALIDATE);
                 if new_epoch.value() == self.global().epoch.load(Ordering::Acquire).value() {
                     break new_epoch;
                 }
+                #[cfg(circ_verif)]
+                crate::verif::pre(crate::verif::site::E_PIN_RESET);
                 self.epoch.store(Epoch::starting(), Ordering::Release);
             };
 
+            #[cfg(circ_verif)]
+            crate::verif::ev(crate::verif::site::EV_PIN, self as *const _ as usize, new_epoch.value() as u64, 0);
             // Reset the advance couter if epoch has advanced.
             if new_epoch != self.prev_epoch.get() {
                 self.prev_epoch.set(new_epoch);
@@ -456,6 +492,8 @@ impl Local {
     pub(crate) fn unpin(&self) {
         let guard_count = self.guard_count.get();
         if guard_count == 1 && !self.collecting.get() {
+            #[cfg(circ_verif)]
+            crate::verif::ev(crate::verif::site::EV_UNPIN_BEGIN, self as *const _ as usize, self.must_collect.get() as u64, 0);
             self.collecting.set(true);
             while self.must_collect.get() {
                 self.must_collect.set(false);
@@ -469,8 +507,12 @@ impl Local {
 
         self.guard_count.set(guard_count - 1);
         if guard_count == 1 {
+            #[cfg(circ_verif)]
+            crate::verif::pre(crate::verif::site::E_UNPIN_STORE);
             self.epoch.store(Epoch::starting(), Ordering::Release);
 
+            #[cfg(circ_verif)]
+            crate::verif::ev(crate::verif::site::EV_UNPIN_END, self as *const _ as usize, 0, 0);
             if self.handle_count.get() == 0 {
                 self.finalize();
             }
@@ -490,6 +532,8 @@ impl Local {
     /// Repins the local epoch without checking a scheduled collection.
     #[inline]
     pub(crate) fn repin_without_collect(&self) -> Epoch {
+        #[cfg(circ_verif)]
+        crate::verif::pre(crate::verif::site::E_REPIN_READ);
         let epoch = self.epoch.load(Ordering::Relaxed);
         let global_epoch = self.global().epoch.load(Ordering::Relaxed).pinned();
 
@@ -497,7 +541,11 @@ impl Local {
         if epoch != global_epoch {
             // We store the new epoch with `Release` because we need to ensure any memory
             // accesses from the previous epoch do not leak into the new one.
+            #[cfg(circ_verif)]
+            crate::verif::pre(crate::verif::site::E_REPIN_STORE);
             self.epoch.store(global_epoch, Ordering::Release);
+            #[cfg(circ_verif)]
+            crate::verif::ev(crate::verif::site::EV_REPIN, self as *const _ as usize, global_epoch.value() as u64, 0);
         }
         global_epoch
     }
@@ -526,6 +574,8 @@ impl Local {
     /// Removes the `Local` from the global linked list.
     #[cold]
     fn finalize(&self) {
+        #[cfg(circ_verif)]
+        crate::verif::pre(crate::verif::site::E_FINALIZE);
         debug_assert_eq!(self.guard_count.get(), 0);
         debug_assert_eq!(self.handle_count.get(), 0);
 
@@ -564,6 +614,31 @@ impl Local {
         if manual_count % unsafe { MANUAL_EVENTS_BETWEEN_COLLECT } == 0 {
             self.flush(guard);
         }
+    }
+}
+
+#[cfg(circ_verif)]
+impl Local {
+    pub(crate) fn verif_info(&self) -> crate::verif::LocalInfo {
+        let e = self.epoch.load(Ordering::SeqCst);
+        crate::verif::LocalInfo {
+            epoch: e.value(),
+            pinned: e.is_pinned(),
+            guard_count: self.guard_count.get(),
+            handle_count: self.handle_count.get(),
+            bag_len: unsafe { (*self.bag.get()).0.len() },
+            collecting: self.collecting.get(),
+        }
+    }
+}
+
+#[cfg(circ_verif)]
+impl Global {
+    pub(crate) unsafe fn verif_pending_bags(&self) -> usize {
+        self.queue.verif_dump_with(|_| ()).len()
+    }
+    pub(crate) unsafe fn verif_bag_epochs(&self) -> Vec<usize> {
+        self.queue.verif_dump_with(|b: &SealedBag| b.epoch.value())
     }
 }
 
